@@ -613,9 +613,9 @@ theorem resume_post (inp : List UInt8) (G : Prop) (mk : Bool) (f : Nat) :
           ⟨n, hn, hans, hg⟩ | ⟨hans, hg⟩
         · generalize hr1 : growOk r n = r1 at hg
           have hw1 : Win inp G r1 := by
-            obtain ⟨a, b, c, d, e, f, g, i, w, k⟩ := hw
+            obtain ⟨a, b, c, d, e, f, g, i, w, k, z⟩ := hw
             subst hr1
-            exact ⟨a, b, c, d, e, by simp only [growOk]; omega, by simp only [growOk]; omega, i, w, k⟩
+            exact ⟨a, b, c, d, e, by simp only [growOk]; omega, by simp only [growOk]; omega, i, w, k, z⟩
           obtain ⟨br', ext, m, hfill, hbuf, hcap, hcur, hext, hw2, he2, -⟩ := fill_win inp G r1 hw1
           rw [resume_grow f ip mk r r1 br' m hlt hp hg hfill]
           have e1 : r1.br.buf = r.br.buf := by subst hr1; rfl
@@ -641,9 +641,9 @@ theorem resume_post (inp : List UInt8) (G : Prop) (mk : Bool) (f : Nat) :
           intro h0
           simp [h0] at hp
         have hw1 : Win inp G r1 := by
-          obtain ⟨a, b, c, d, e, f, g, i, w, k⟩ := hw
+          obtain ⟨a, b, c, d, e, f, g, i, w, k, z⟩ := hw
           subst hr1
-          refine ⟨a, b, c, d, e, f, ?_, ?_, ?_, ?_⟩
+          refine ⟨a, b, c, d, e, f, ?_, ?_, ?_, ?_, z⟩
           · simp only [BufRd.consume, List.length_drop]; omega
           · simp only [BufRd.consume, List.length_drop]; omega
           · simp only [BufRd.consume, List.length_drop]
@@ -746,8 +746,8 @@ theorem next_post (inp : List UInt8) (G : Prop) (fuel : Nat) (r : Reader) (items
     rw [this]
     have hp0 := hb.pos0_le
     refine nextCont_post inp G fuel _ ?_ he (by intro ip h; simp only [hip] at h; cases h) hfuel
-    obtain ⟨⟨a, b, c, d, e, f, g, i, w, k⟩, -⟩ := hb
-    exact ⟨⟨a, b, c, d, e, f, g, i, w, by simp only; omega⟩, h1l⟩
+    obtain ⟨⟨a, b, c, d, e, f, g, i, w, k, z⟩, -⟩ := hb
+    exact ⟨⟨a, b, c, d, e, f, g, i, w, by simp only; omega, z⟩, h1l⟩
 
 theorem take_length_append {α : Type} (x rest : List α) (n : Nat) (h : n = x.length) :
     (x ++ rest).take n = x := by
